@@ -37,7 +37,7 @@ def load(tier):
     LAYOUTS.extend(sp.curated_layouts())      # deep hand-picked layouts (nested split + join next to another spine, ...)
     # C06.b (public keywords) runs on a stride sample of the layouts: the per-node gate itself is C06.a's
     global B_LAYOUTS
-    step = ctx.pick(11, 3)
+    step = ctx.pick(11, 12)
     B_LAYOUTS = list(range(0, len(LAYOUTS), step)) + list(range(len(LAYOUTS) - len(sp.curated_layouts()), len(LAYOUTS), 3))
 
 
@@ -183,7 +183,7 @@ OBLIGATIONS = [
     Ob(id='C06.b', fn=ob_b, title='public keywords spine_ids / spine_types (lists, tuples, None, omitted)',
        shard_of=lambda layout, ids, types, style: layout, shards={'quick': 16, 'thorough': 16}, budget_s={'quick': 170, 'thorough': 2400},
        witnesses=[{'layout': 1, 'ids': 5, 'types': 3, 'style': 0}], min_confirmed=1000, enumerated='layout, id subset, type subset, argument style',
-       bounds={'quick': 'every 11th C06.a layout x 9 id selections x 17 type selections x 2 styles', 'thorough': 'every 3rd layout'},
+       bounds={'quick': 'every 11th C06.a layout x 9 id selections x 17 type selections x 2 styles', 'thorough': 'every 12th layout of the thorough layout set'},
        describe=_desc),
     Ob(id='C06.c', fn=ob_c, title='spine_types(doc, headers) == header line of the projection',
        shard_of=lambda layout, types: layout, shards={'quick': 8, 'thorough': 16}, budget_s={'quick': 120, 'thorough': 900},
